@@ -142,6 +142,8 @@ def run(res, tier, rng, table_diffs=()):
     cases += gen2.width_boundary_programs()
     cases += [("iife", p) for p in gen2.iife_programs()]
     cases += [("tail-shapes", p) for p in gen2.tail_shape_programs()]
+    cases += [("rebinding", p) for p in gen2.rebinding_programs()]
+    cases += [("stale-slots", p) for p in gen2.stale_slot_programs()]
     for _ in range(400 if tier == "quick" else 8000):
         cases.append(("fn-values", gen2.fnvalue_program(rng.fork())))
     for _ in range(200 if tier == "quick" else 4000):
